@@ -9,7 +9,7 @@ bytes).  The is_text scan of post_process (irrelevant when the signature is
 KDMV) is cut by a trivial invariant; bytes.decode is abstract (A-CODEC).
 Text-descriptor mode is the known finding F1 and is not under contract.
 """
-from pyvc.api import (proof, load, invariant, model, fresh_int, fresh_bytes,
+from pyvc.api import (proof, load, invariant, model, tier, fresh_int, fresh_bytes,
                       fresh_str, fresh_bool, pick, assume, check, implies,
                       conj, disj, neg, le, same)
 
@@ -250,7 +250,7 @@ def line_class(line):
 def check_descriptor_contract():
     M = load(FI)
     insp = M.VMDKInspector()
-    n = pick('lines', [0, 1, 2])
+    n = pick('lines', [0, 1, 2] if tier() == 'quick' else [0, 1, 2, 3])
     lines = [Line('line%d' % i) for i in range(n)]
     state = pick('descriptor', ['missing', 'empty', 'present'])
     vt = pick('vmdktype', ['monolithicsparse', 'streamoptimized',
